@@ -813,17 +813,38 @@ func changeTimelineTimescale(inSTL *m.SegmentTimelineType, oldTimescale, newTime
 	}
 	o := m.SegmentTimelineType{}
 	o.S = make([]*m.S, 0, len(inSTL.S))
+	// Every segment boundary is converted on its own and the durations are the differences, so that
+	// the time of a segment does not depend on where the timeline starts.
+	t := uint64(0)
+	var last *m.S
 	for _, s := range inSTL.S {
-		outS := m.S{
-			N: nil,
-			D: round(s.D),
-			R: s.R,
-			K: nil,
-		}
 		if s.T != nil { // only the first S element of a generated timeline carries t
-			outS.T = m.Ptr(round(*s.T))
+			t = *s.T
+			last = nil
 		}
-		o.S = append(o.S, &outS)
+		if s.R < 0 { // open-ended repeat: passed on as it is
+			outS := &m.S{D: round(s.D), R: s.R}
+			if last == nil {
+				outS.T = m.Ptr(round(t))
+			}
+			o.S = append(o.S, outS)
+			last = outS
+			continue
+		}
+		for i := 0; i <= s.R; i++ {
+			start, end := round(t), round(t+s.D)
+			t += s.D
+			if last != nil && last.D == end-start {
+				last.R++
+				continue
+			}
+			outS := &m.S{D: end - start}
+			if last == nil {
+				outS.T = m.Ptr(start)
+			}
+			o.S = append(o.S, outS)
+			last = outS
+		}
 	}
 	return &o
 }
